@@ -84,7 +84,14 @@ def run(ctx):
     dist = {}
     for i in range(n):
         exact = (i % 4) != 3
-        out = ramses.gen_output(r, exact=exact, max_octs=40 if ctx.tier == "quick" else 90)
+        if i % 10 == 6:
+            # a deep zoom: one refined cell per oct down to level 22..30 (cell centres need more than 24 significant bits)
+            exact = True
+            out = ramses.gen_output(r, exact=True, levelmin=r.randint(1, 2), levelmax=r.randint(22, 30), ncpu=r.randint(1, 2),
+                                    chain=True, max_octs=10 ** 6)
+            dist["deep_chain"] = dist.get("deep_chain", 0) + 1
+        else:
+            out = ramses.gen_output(r, exact=exact, max_octs=40 if ctx.tier == "quick" else 90)
         key = f"ndim{out['ndim']}:ncpu{out['ncpu']}:nb{out['nboundary']}:{'exact' if exact else 'tol'}"
         dist[key] = dist.get(key, 0) + 1
         if i % 7 == 3:
@@ -93,7 +100,7 @@ def run(ctx):
         else:
             one_case(ctx, out, {}, exact, out_)
     out_.distribution = {"ndim:ncpu:nboundary:lane": dist}
-    out_.rule = ("random well-formed outputs: AMR tree by recursive refinement between levelmin and levelmax (1..5), ndim 1-3, 1-5 cpus with "
+    out_.rule = ("random well-formed outputs: AMR tree by recursive refinement between levelmin and levelmax (1..5; one case in ten is a deep zoom, a chain of single refined cells down to level 22..30), ndim 1-3, 1-5 cpus with "
                  "random ownership, 0-2 boundary regions (nx=3), own octs in any order plus random ghost copies with poisoned values in every "
                  "file, noutput 1-5, 8/16-byte bound keys, 2-10 hydro variables (vector triples, pressure, radiative_energy_1, B_x_left.. in "
                  "the tolerant lane), optional gravity / RT / particles / sinks, unit_d/l/t and boxlen powers of two (exact lane, 3/4) or "
